@@ -3,6 +3,7 @@ import AslProofs.HttpParse
 import AslProofs.HttpDispatch
 import AslProofs.HttpQuery
 import AslProofs.HttpRange
+import AslProofs.HttpExpect
 /-!
 # C09 — HTTP request parsing is total and safe and never yields a path containing `..`
 
@@ -601,5 +602,71 @@ example : escPct [47, 37, 50, 101, 37, 50, 101, 47, 120] = [47, 37, 50, 53, 50, 
     hasDD [47, 37, 50, 101, 37, 50, 101, 47, 120] = false := by decide
 example : (parseTarget [47, 37, 50, 53, 50, 101, 37, 50, 53, 50, 101, 47, 120]).toOption.map (·.path) =
     some [47, 37, 50, 101, 37, 50, 101, 47, 120] := by decide
+
+/-! ## Expect: 100-continue (second extension round)
+
+`WellFormed` (the hypothesis of `read_faithful`) excludes `Expect: 100-continue`; `WellFormedX` is the same structure
+without that clause, `interim h` the bytes `HttpRequest::read` writes to the peer between the header block and the body. -/
+
+open AslProofs.HttpExpect in
+/-- **read ∘ serialize = id also under `Expect`**: every well-formed request (no body or a Content-Length body), whatever
+    its `Expect` field says, followed by arbitrary bytes `rest`, is handed over with exactly the method, target, protocol,
+    header fields and body sent; `rest` stays unread; and the only bytes written to the peer are the interim answer -/
+theorem read_faithful_expect (q : WfReq) (rest : Bytes) (hw : WellFormedX q) :
+    ∃ t, parseTarget q.target = .ok t ∧
+      AslModel.HttpParse.read { inp := serialize q ++ rest } =
+        .ok ({ method := q.method, res := q.target, proto := q.proto, path := t.path, query := t.query,
+               fragment := t.fragment, parts := t.parts, headers := hdrDic q.headers, body := q.body },
+             { inp := rest, out := interim (hdrDic q.headers) }) := by
+  obtain ⟨t, ht, h⟩ := read_faithful_expect_sock { inp := serialize q ++ rest } q rest hw rfl rfl rfl
+  exact ⟨t, ht, by simpa using h⟩
+
+open AslProofs.HttpExpect in
+/-- which interim answer: with `Expect: 100-continue` (the value compared as a C string, case-sensitively) it is
+    `HTTP/1.1 100 Continue` when the body sent is shorter than 128000000 bytes and `HTTP/1.1 417 Too big` otherwise
+    (the body is read all the same, `read_faithful_expect`); with any other `Expect` value or none, nothing is written -/
+theorem expect_interim_answer (q : WfReq) (hw : WellFormedX q) :
+    interim (hdrDic q.headers) =
+      if cstr (header (hdrDic q.headers) sExpect) = s100continue then
+        (if q.body.length < 128000000 then sContinue else sTooBig)
+      else [] := by
+  unfold interim
+  by_cases hx : cstr (header (hdrDic q.headers) sExpect) = s100continue
+  · have hb : (cstr (header (hdrDic q.headers) sExpect) == s100continue) = true := by simp [hx]
+    simp only [hx, if_true]
+    rcases hw.framing with ⟨hb0, hcl⟩ | ⟨hpos, hcl, hvalid, hval⟩
+    · rw [header_of_not_has _ _ hcl, hb0]
+      decide
+    · rw [validLength_long _ hvalid, hval]
+      by_cases hl : q.body.length < 128000000
+      · have : ((q.body.length : Nat) : Int) < 128000000 := by omega
+        simp [hl, this]
+      · have : ¬ ((q.body.length : Nat) : Int) < 128000000 := by omega
+        simp [hl, this]
+  · have hb : (cstr (header (hdrDic q.headers) sExpect) == s100continue) = false := by simp [hx]
+    simp only [hb, hx, if_false, Bool.false_eq_true]
+
+open AslProofs.HttpExpect in
+/-- `WellFormed` is the special case of `WellFormedX` in which nothing is written (so `read_faithful` follows from
+    `read_faithful_expect`) -/
+theorem wellformed_is_expect_free (q : WfReq) (hw : WellFormed q) : WellFormedX q ∧ interim (hdrDic q.headers) = [] :=
+  ⟨⟨hw.method_ne, hw.method_ok, hw.target_ok, hw.proto_ok, hw.line_len, hw.headers_ok, hw.no_te, hw.framing⟩,
+   by unfold interim; simp only [hw.no_expect, Bool.false_eq_true, if_false]⟩
+
+-- "POST /a HTTP/1.1\r\nContent-Length: 2\r\nExpect: 100-continue\r\n\r\nhi": hypotheses of `read_faithful_expect`,
+-- the `Expect` branch of `expect_interim_answer` is taken and the answer is `100 Continue`
+example : AslProofs.HttpExpect.WellFormedX ⟨[80, 79, 83, 84], [47, 97], [72, 84, 84, 80, 47, 49, 46, 49],
+    [(sContentLength, [50]), (sExpect, s100continue)], [104, 105]⟩ where
+  method_ne := by decide
+  method_ok := by decide
+  target_ok := by decide
+  proto_ok := by unfold ValueOk; decide
+  line_len := by decide
+  headers_ok := by unfold HeadersOk NameOk ValueOk; decide
+  no_te := by decide
+  framing := Or.inr (by decide)
+example : AslProofs.HttpExpect.interim (hdrDic [(sContentLength, [50]), (sExpect, s100continue)]) = sContinue := by decide
+example : AslProofs.HttpExpect.interim (hdrDic [(sContentLength, [49, 50, 56, 48, 48, 48, 48, 48, 48]), (sExpect, s100continue)]) = sTooBig := by decide
+example : AslProofs.HttpExpect.interim (hdrDic [(sContentLength, [50]), (sExpect, [49, 48, 48, 45, 67, 111, 110, 116, 105, 110, 117, 101])]) = [] := by decide
 
 end C09
